@@ -26,12 +26,17 @@ fn read_name<R>(reader: &mut R) -> io::Result<BString>
 where
     R: Read,
 {
-    let l_name = read_u32_le(reader).and_then(|n| {
-        usize::try_from(n).map_err(|e| io::Error::new(io::ErrorKind::InvalidData, e))
-    })?;
+    let l_name = read_u32_le(reader).map(u64::from)?;
 
-    let mut c_name = vec![0; l_name];
-    reader.read_exact(&mut c_name)?;
+    let mut c_name = Vec::new();
+    let n = reader.take(l_name).read_to_end(&mut c_name)?;
+
+    if (n as u64) < l_name {
+        return Err(io::Error::new(
+            io::ErrorKind::UnexpectedEof,
+            "failed to fill whole buffer",
+        ));
+    }
 
     bytes_with_nul_to_bstring(&c_name)
 }
@@ -50,6 +55,20 @@ where
 #[cfg(test)]
 mod tests {
     use super::*;
+
+    #[test]
+    fn test_read_reference_sequence_with_an_unsatisfiable_name_length() {
+        let src = [
+            0xff, 0xff, 0xff, 0xff, // l_name = 4294967295
+            0x73, 0x71, 0x30, 0x00, // name = "sq0\x00"
+            0x08, 0x00, 0x00, 0x00, // l_ref = 8
+        ];
+
+        assert!(matches!(
+            read_reference_sequence(&mut &src[..]),
+            Err(e) if e.kind() == io::ErrorKind::UnexpectedEof
+        ));
+    }
 
     #[test]
     fn test_read_reference_sequence() -> Result<(), Box<dyn std::error::Error>> {
